@@ -96,7 +96,12 @@ PROBES = [
     ("reject-backslash-before-quote", "SELECT 'a\\' , 'b'", ""),
     ("single-table-fast-path-keywords", "SELECT a.id FROM cpu a WHERE a.id IN (SELECT id\nFROM\nmem b)", "db1"),
     ("quoted-cte-declaration", "WITH \"vq8\" AS (SELECT 1 AS one) SELECT * FROM vq8", ""),
+    ("quote-scanning-backtick-estring", "SELECT E'a\\'' AS a", ""),
 ]
+# the repair of GET /api/v1/query/:measurement (fixes/C14_query_measurement_checks_all_references.patch) is outside
+# the gate model: detected here, used by the oracle's classification only
+MEASUREMENT_PROBE = ("id >= (SELECT min(id) FROM db2.secret)", "db1", "cpu")
+MEASUREMENT_FIXED = False
 FIXBITS = 0
 
 
@@ -119,22 +124,26 @@ def detect_fixes(outs):
         bits |= 64
     if o[7].get("executed") is not None and "read_parquet" not in o[7]["executed"]:
         bits |= 128
+    if o[8].get("status") == 400 and "Backslash before a quote" in (o[8].get("err") or ""):
+        bits |= 256
     return bits
 
 
 def fix_names(bits=None):
     bits = FIXBITS if bits is None else bits
-    return [PROBES[i][0] for i in range(len(PROBES)) if bits >> i & 1]
+    return [PROBES[i][0] for i in range(len(PROBES)) if bits >> i & 1] + (["query-measurement-checks-all-references"] if MEASUREMENT_FIXED else [])
 
 
 def run_cases(pid, cases, tag, files=None, views=None, timeout=2400):
     """runs the cases (plus the probe statements) through the harness; sets FIXBITS"""
-    global FIXBITS
+    global FIXBITS, MEASUREMENT_FIXED
     probes = [mk_case(sql, hdr, allow=["*"], reads=False) for _, sql, hdr in PROBES]
+    probes.append(dict(mk_case(MEASUREMENT_PROBE[0], MEASUREMENT_PROBE[1], allow=["db1"], reads=False), ep="measurement", meas=MEASUREMENT_PROBE[2]))
     inp = {"files": files if files is not None else dataset_files(), "measures": measures(), "markers": markers(),
            "views": views or [], "cases": probes + list(cases)}
     outs = vlib.run_go_harness(pid, PKG, TEST, HARNESS, inp, tags=TAGS, timeout=timeout, tag=tag)
     FIXBITS = detect_fixes(outs[:len(probes)])
+    MEASUREMENT_FIXED = outs[len(probes) - 1].get("status") == 403
     return outs[len(probes):]
 
 
@@ -734,9 +743,20 @@ class ValidGen:
             self.labels.add("subquery")
             b = self.alias()
             return "%s.id IN (%s%sid%s%s%s%s %s)" % (a, self.kw("SELECT"), self.gap(), self.gap(), self.kw("FROM"), self.gap(), self.table(), b)
-        if x < 0.9:
+        if x < 0.86:
             self.labels.add("from-function")
             return "%s(%s.host %s 2 %s 1) = '1'" % (self.kw("substring"), a, self.kw("FROM"), self.kw("FOR"))
+        if x < 0.95:
+            # nested parenthesised calls / casts inside the body, before and after its FROM
+            self.labels.add("from-function-nested-parens")
+            return r.choice([
+                "%s(upper(%s.host) %s 2 %s 1) = '1'" % (self.kw("substring"), a, self.kw("FROM"), self.kw("FOR")),
+                "%s(%s lower('H') %s %s.host) <> 'x'" % (self.kw("trim"), self.kw("BOTH"), self.kw("FROM"), a),
+                "%s(CAST(%s.id AS VARCHAR) %s 1 %s 1) <> 'x'" % (self.kw("substring"), a, self.kw("FROM"), self.kw("FOR")),
+                "%s(%s %s CAST('2024-03-01' AS DATE)) = 2024" % (self.kw("extract"), self.kw("year"), self.kw("FROM")),
+                "%s(concat(%s.host, 'z') %s 'q' %s (1 + 1) %s 1) <> 'x'" % (self.kw("overlay"), a, self.kw("PLACING"), self.kw("FROM"), self.kw("FOR")),
+                "%s(coalesce(%s.tag, 'a') %s length(%s.host)) <> 'x'" % (self.kw("substring"), a, self.kw("FROM"), a),
+            ])
         self.labels.add("from-function")
         return "%s(%s %s DATE '2024-03-01') = 2024" % (self.kw("extract"), self.kw("year"), self.kw("FROM"))
 
